@@ -104,3 +104,22 @@ __CPROVER_ensures((frame->fin && C_JOIN_OP == WsOpcode_TEXT && !G_utf8_res) ==> 
 /* R7 */ __CPROVER_ensures(G_text_calls + G_bin_calls <= 1)
 ;
 void h_cdf(void) { WsClient *c; const WsFrameIn *f; WsClient_handleDataFrame(c, f); IORA_CANARY("h_cdf: returns"); }
+
+/* ===== send paths: close-sent recheck atomic with the send (plain, loop-free, full domain) ===== */
+void h_send(void)
+{
+  WsServer srv; srv.has_gs = nondet_bool(); srv.gs.closeSent = nondet_bool(); srv._wsMutex.held = 0;
+  SessionId sid = nondet_u64(); int which = nondet_int(); __CPROVER_assume(which >= 0 && which <= 2);
+  G_data_sent = 0; G_close_sent = 0;
+  bool was_closing = srv.has_gs && srv.gs.closeSent;
+  if (which == 0) WsServer_sendText(&srv, sid, "x");
+  else if (which == 1) WsServer_sendBinary(&srv, sid, 0);
+  else WsServer_sendClose_real(&srv, sid, 1000, "");
+  __CPROVER_assert(!srv._wsMutex.held, "LK5: no lock held at return");
+  __CPROVER_assert(!(which <= 1 && (was_closing || !srv.has_gs)) || G_data_sent == 0, "CS4: sendText/sendBinary send nothing for an unknown or closing session");
+  __CPROVER_assert(!(which <= 1 && srv.has_gs && !was_closing) || G_data_sent == 1, "CS5: an open session's data frame is sent exactly once");
+  __CPROVER_assert(which <= 1 || (G_close_sent == 1 && (!srv.has_gs || srv.gs.closeSent)), "CS6: sendClose marks the session and sends one close frame");
+  IORA_CANARY("h_send: returns");
+  if (G_data_sent) { IORA_CANARY("h_send: data sent"); }
+  if (G_close_sent) { IORA_CANARY("h_send: close sent"); }
+}
